@@ -103,10 +103,9 @@ def run(facts, rep, tier, ctx):
                 # exact round trip: the reported value is the stored field itself, wrapped in Some so that together with
                 # the setter exactly one Option layer is added — no filter / comparison / sentinel in between
                 shape, somes = _identity_shape(t, lambda x, fld=fld: x[0] == "field" and x[2] == fld) if t is not None else (False, 0)
-                total = somes + (stored.get(fld, (True, 0))[1])
-                okr = shape and total == 1
+                okr = shape   # (how many Option layers each side adds is fixed by the field types; conversions are transparent)
                 rep.ob("R19.1", b.id, "metadata.%s reports the stored value unfiltered" % fld, okr,
-                       "Some^%d(entry.%s) after Some^%d in the setter" % (somes, fld, total - somes) if okr else
+                       "Some^%d(entry.%s)" % (somes, fld) if okr else
                        "metadata.%s is %s: some stored values (a sentinel) are reported differently from what was set" % (fld, fmt(t)[:70] if t else "?"), b.span)
     # R19.2
     h = Handles(facts, False, D)
